@@ -29,6 +29,7 @@ def step (s : Option St) (line : String) : Option St × String :=
     | none => (s, "bad-op")
   | _, none => (s, "bad-op")
   | ["add"], some σ => let σ' := run σ [.add]; (some σ', showSt σ')
+  | ["add", "hiccup"], some σ => let σ' := run σ [.add]; (some σ', showSt σ')   -- a latency spike is not a failure: same as `add`
   | ["remove", k, kind], some σ =>
     if kind ≠ "remote" ∧ kind ≠ "local" then (s, "bad-op") else
     match k.toNat? with
